@@ -73,6 +73,9 @@ func applyProfile(g *Gen, profile string) {
 		g.PEnv = 40
 		g.MaxOpts = 8
 		g.MaxArgv = 3
+		g.PLateOpts = 30
+		g.PUnset = 25
+		g.MaxDepth = 3
 	case "build":
 		g.PInvalid = 12
 		g.PLateOpts = 35
@@ -149,6 +152,44 @@ func genArgvFor(g *Gen, profile string, p *ProgDef) []string {
 			default:
 				out = append(out, g.pick(wordPool))
 			}
+		}
+		return out
+	case "help":
+		// ask for the help of a command chosen anywhere in the tree, in every spelling the library
+		// accepts: the help option before, inside or after the command path, the help command at
+		// the root, at the parent, or inside the command itself
+		if !p.Help || !g.pct(70) {
+			return g.GenArgv(p)
+		}
+		path := []string{}
+		cur := p.Root
+		for len(cur.Cmds) > 0 && g.pct(75) {
+			cur = cur.Cmds[g.r.Intn(len(cur.Cmds))]
+			path = append(path, cur.Name)
+		}
+		hopt := "--" + p.HelpName
+		if len(p.HelpAlias) > 0 && g.pct(30) {
+			hopt = "-" + p.HelpAlias[0]
+		}
+		out := []string{}
+		switch g.r.Intn(6) {
+		case 0:
+			out = append(append(out, path...), hopt)
+		case 1:
+			out = append(append(out, hopt), path...)
+		case 2:
+			out = append(append(out, p.HelpName), path...)
+		case 3:
+			if len(path) > 0 {
+				out = append(append(append(out, path[:len(path)-1]...), p.HelpName), path[len(path)-1])
+			} else {
+				out = append(out, p.HelpName)
+			}
+		case 4:
+			out = append(append(out, path...), p.HelpName)
+		default:
+			k := g.r.Intn(len(path) + 1)
+			out = append(append(append(out, path[:k]...), hopt), path[k:]...)
 		}
 		return out
 	case "abbrev":
